@@ -88,7 +88,7 @@ func (ex *exec) stdModel(st *State, key string, fn *types.Func, recv Value, args
 	case "(encoding/binary.bigEndian).Uint16", "(encoding/binary.bigEndian).Uint32", "(encoding/binary.bigEndian).Uint64":
 		n := map[string]int{"Uint16": 2, "Uint32": 4, "Uint64": 8}[fn.Name()]
 		b := args[0].(*Slice)
-		ex.oblige(st, "index", "binary."+fn.Name(), ex.le(ex.idxConst(int64(n)), b.Len), pos)
+		ex.runtimeCheck(st, "index", "binary."+fn.Name(), ex.le(ex.idxConst(int64(n)), b.Len), pos)
 		var acc *Term
 		for i := 0; i < n; i++ {
 			by := ex.load(st, b.Base.with(Sel{Field: -1, Idx: ex.add(b.Off, ex.idxConst(int64(i)))}), pos).(*Term)
@@ -111,7 +111,7 @@ func (ex *exec) stdModel(st *State, key string, fn *types.Func, recv Value, args
 		n := map[string]int{"PutUint16": 2, "PutUint32": 4, "PutUint64": 8}[fn.Name()]
 		b := args[0].(*Slice)
 		v := T(1)
-		ex.oblige(st, "index", "binary."+fn.Name(), ex.le(ex.idxConst(int64(n)), b.Len), pos)
+		ex.runtimeCheck(st, "index", "binary."+fn.Name(), ex.le(ex.idxConst(int64(n)), b.Len), pos)
 		for i := 0; i < n; i++ {
 			var by *Term
 			sh := 8 * (n - 1 - i)
